@@ -14,11 +14,13 @@ namespace Mux
 inductive Wire where
   | none
   | pending (c : Nat)    -- request of call c written, server has not answered
-  | answered (c : Nat)   -- server has answered, response not yet consumed by the receive loop
+  | answered (c : Nat) (k w : Nat)   -- server has answered with a frame of kind `k` carrying token content `w`;
+                                     -- response not yet consumed by the receive loop
 deriving DecidableEq, Repr
 
 inductive Outcome where
-  | resp (origin : Nat)   -- a response frame; `origin` = the call whose request caused it (ghost)
+  | resp (origin : Nat) (k w : Nat)   -- a response frame of kind `k` (opcode / result kind / error code / header
+                                      -- flags) with token content `w`; `origin` = the call whose request caused it (ghost)
   | timeout | ctxErr | connClosed | writeErr | buildErr | noStreams
 deriving DecidableEq, Repr
 
@@ -36,6 +38,7 @@ structure St where
   pc : Nat → Pc
   clears : Nat → Nat             -- how often the id acquired by call c has been released (ghost)
   abandoned : Nat → Bool         -- call c gave up waiting (timeout / ctx / conn closed) while its id stays reserved
+  sent : Nat → Option (Nat × Nat) -- what the server answered to the request of call c: (kind, token content) (ghost)
   closed : Bool
 
 inductive Act where
@@ -45,7 +48,10 @@ inductive Act where
   | writeCancelled (c : Nat)     -- exec: ctx ended before writing began (n = 0) → delete call, release id
   | writeFailed (c : Nat)        -- exec: write error → closeWithError (id stays reserved)
   | wrote (c : Nat)              -- exec: frame written; server now holds the request
-  | answer (s : Nat)             -- environment: the server answers the request it holds for s
+  | answer (s k w : Nat)         -- environment: the server answers the request it holds for s with a frame of
+                                 -- kind k and token content w (ANY kind: rows, void, error codes, flags)
+  | stray (s : Nat)              -- environment: a response frame for an id nobody holds (recv: no handler, discarded)
+  | event                        -- environment: an EVENT frame (stream -1; recv hands it to the session)
   | deliver (s : Nat)            -- recv: response for s consumed: to its waiting caller, or (caller gave up) released
   | timeout (c : Nat)            -- exec: timer fired
   | cancel (c : Nat)             -- exec: ctx done
@@ -57,7 +63,7 @@ def upd {α} (f : Nat → α) (k : Nat) (v : α) : Nat → α := fun x => if x =
 
 def init (cap : Nat) : St :=
   { cap := cap, owner := fun _ => none, wire := fun _ => .none, pc := fun _ => .idle,
-    clears := fun _ => 0, abandoned := fun _ => false, closed := false }
+    clears := fun _ => 0, abandoned := fun _ => false, sent := fun _ => none, closed := false }
 
 def step (st : St) : Act → Option St
   | .acquire c s =>
@@ -86,13 +92,18 @@ def step (st : St) : Act → Option St
       match st.pc c with
       | .acquired s => some { st with wire := upd st.wire s (.pending c), pc := upd st.pc c (.waiting s) }
       | _ => none
-  | .answer s =>
+  | .answer s k w =>
       match st.wire s with
-      | .pending c => some { st with wire := upd st.wire s (.answered c) }
+      | .pending c => some { st with wire := upd st.wire s (.answered c k w), sent := upd st.sent c (some (k, w)) }
       | _ => none
+  | .stray s =>
+      -- assumption on the environment (props: "the server answers each request at most once and with its
+      -- own stream id"): unsolicited frames only name ids that no call holds
+      if st.wire s = .none ∧ st.owner s = none then some st else none
+  | .event => some st
   | .deliver s =>
       match st.wire s with
-      | .answered c =>
+      | .answered c k w =>
           if st.closed then none   -- recv returns ErrConnectionClosed once closed
           else match st.owner s with   -- recv: `call := c.calls[head.stream]`
             | some d =>
@@ -100,7 +111,7 @@ def step (st : St) : Act → Option St
                   -- rendezvous with the registered caller in its select: it takes the response (whose
                   -- origin is call c) and releases the id
                   some { st with wire := upd st.wire s .none, owner := upd st.owner s none,
-                                 pc := upd st.pc d (.done (.resp c)), clears := upd st.clears d (st.clears d + 1) }
+                                 pc := upd st.pc d (.done (.resp c k w)), clears := upd st.clears d (st.clears d + 1) }
                 else
                   -- the registered caller closed its `timeout` channel: recv releases the id itself
                   some { st with wire := upd st.wire s .none, owner := upd st.owner s none,
@@ -129,27 +140,37 @@ def run : St → List Act → Option St
     | none => none
 
 /-! ### Monitor over what can be observed from outside: the scripted server logs `req s t` when it has
-    read a request with wire id `s` carrying token `t`, `resp s t` just BEFORE it writes the answer; the
-    client logs `got t u` when the query that sent token `t` returned a row carrying token `u`. -/
+    read a request with wire id `s` carrying token `t`, `resp s t k w` just BEFORE it writes the answer (a
+    frame of kind `k` — opcode, result kind / error code, header flags — with token content `w`), `stray s`
+    before it writes a response frame for an id that was never used, `event` before an EVENT frame; the
+    client logs `got t k u` when the query that sent token `t` returned having decoded a response of kind
+    `k` with token content `u`. -/
 
 inductive Obs where
   | req (s t : Nat)
-  | resp (s t : Nat)
-  | got (t u : Nat)
+  | resp (s t k w : Nat)
+  | got (t k u : Nat)
+  | stray (s : Nat)
+  | event
 deriving Repr, DecidableEq
 
 structure Mon where
   cap : Nat
   slot : List (Nat × Nat × Bool)   -- wire id ↦ (token, answered?) of the last request seen on it
+  sent : List (Nat × Nat × Nat)    -- token ↦ (kind, token content) the server answered with
+  gots : List Nat                  -- tokens whose caller has reported a response
   bad : Option String
 
-def Mon.init (cap : Nat) : Mon := { cap := cap, slot := [], bad := none }
+def Mon.init (cap : Nat) : Mon := { cap := cap, slot := [], sent := [], gots := [], bad := none }
 
 def Mon.lookup (m : Mon) (s : Nat) : Option (Nat × Bool) :=
   (m.slot.find? (·.1 = s)).map (·.2)
 
 def Mon.set (m : Mon) (s t : Nat) (a : Bool) : Mon :=
   { m with slot := (s, t, a) :: m.slot.filter (·.1 ≠ s) }
+
+def Mon.answer (m : Mon) (t : Nat) : Option (Nat × Nat) :=
+  (m.sent.find? (·.1 = t)).map (·.2)
 
 def Mon.step (m : Mon) : Obs → Mon
   | .req s t =>
@@ -158,13 +179,27 @@ def Mon.step (m : Mon) : Obs → Mon
       else match m.lookup s with
         | some (t0, false) => { m with bad := some s!"stream-reused-while-outstanding:{s}:{t0}:{t}" }
         | _ => m.set s t false
-  | .resp s t =>
+  | .resp s t k w =>
       if m.bad.isSome then m
       else match m.lookup s with
-        | some (t0, false) => if t0 = t then m.set s t true else { m with bad := some s!"server-script-error:{s}" }
+        | some (t0, false) =>
+            if t0 = t then { m.set s t true with sent := (t, k, w) :: m.sent }
+            else { m with bad := some s!"server-script-error:{s}" }
         | _ => { m with bad := some s!"server-script-error:{s}" }
-  | .got t u =>
+  | .got t k u =>
       if m.bad.isSome then m
-      else if t = u then m else { m with bad := some s!"misrouted:{t}:{u}" }
+      else if t ∈ m.gots then { m with bad := some s!"second-response-for-one-call:{t}" }
+      else match m.answer t with
+        | none => { m with bad := some s!"response-without-answer:{t}:{k}:{u}" }
+        | some (k0, w0) =>
+            if u ≠ w0 then { m with bad := some s!"misrouted:{t}:{u}" }
+            else if k ≠ k0 then { m with bad := some s!"wrong-kind:{t}:{k}:{k0}" }
+            else { m with gots := t :: m.gots }
+  | .stray s =>
+      if m.bad.isSome then m
+      else match m.lookup s with
+        | some (_, false) => { m with bad := some s!"server-script-error:{s}" }
+        | _ => m
+  | .event => m
 
 end Mux
